@@ -30,6 +30,7 @@ import (
 	"regexp"
 	"strconv"
 	"strings"
+	"unicode/utf8"
 
 	"github.com/danos/mgmterror"
 	"github.com/danos/utils/pathutil"
@@ -710,7 +711,8 @@ func (s *ystring) PatHelps() [][]string { return s.pathelps }
 
 func (y *ystring) Validate(ctx ValidateCtx, path []string, s string) error {
 	var err error
-	err = y.len.Validate(uint64(len(s)))
+	// RFC 6020 9.4.4: the length of a string is its number of characters
+	err = y.len.Validate(uint64(utf8.RuneCountInString(s)))
 	if err != nil {
 		switch merr := err.(type) {
 		case *mgmterror.InvalidValueApplicationError:
